@@ -227,6 +227,13 @@ theorem acted_for_means_credential (cfg : Cfg) (st : St) (c : Cred) (X : Str) (b
   | unknownClient => rw [ho] at h; simp [treatedAs] at h
   | invalidClient => rw [ho] at h; simp [treatedAs] at h
 
+/-- a request accepted through the `public` (or `none`) method is never marked authenticated, whatever
+    it says about itself (F-C01-b) -/
+theorem public_is_not_authenticated (cfg : Cfg) (X : Str) (body : Option Str) :
+    treatedAs cfg (.accepted X .publicM) body = some (some X, false) ∧
+    treatedAs cfg (.accepted X .noneM) body = some (some X, false) := by
+  constructor <;> simp [treatedAs]
+
 /-- the body's `client_id` never decides who an authenticated request belongs to -/
 theorem body_claim_is_ignored (cfg : Cfg) (o : Outcome) (b1 b2 : Option Str) (X : Option Str)
     (h : treatedAs cfg o b1 = some (X, true)) : treatedAs cfg o b2 = some (X, true) := by
